@@ -73,6 +73,11 @@ func runC08(w *mc.Worker) {
 			body(c, bal)
 		}
 	})
+	runOriginSeqSpace(w, "origin-L3", 2, 3, []string{"x"}, func(c *seqCase, oc *originCase) {
+		if strings.Contains(c.Text, "save") {
+			judgeSeqCaseX(w, c, nil, oc, owns, nontriv, true, env.Exact)
+		}
+	})
 	sheetsQ := &sheetDom{A: bigs(0, 1, 3, 6, -2), B: bigs(0, 2, -2), X: bigs(0, 2)}
 	sheetsT := &sheetDom{A: append(bigs(0, 1, 3, 6, -2), H), B: bigs(0, 2, -2), X: bigs(0, 2), AEur: bigs(0, 3)}
 	seq := func(name, bounds string, minLen, maxLen, budget int, sh *sheetDom) {
